@@ -41,7 +41,7 @@ All timestamps are strings in ISO8601 format in UTC (no explicit ``Z`` suffix).
 import abc
 import copy
 import json
-from collections.abc import Collection
+from collections.abc import Collection, Mapping
 from typing import Any, TypedDict, cast
 
 from kopf._cogs.configs import conventions
@@ -318,6 +318,8 @@ class StatusProgressStorage(ProgressStorage):
     ) -> ProgressRecord | None:
         container: dict[ids.HandlerId, ProgressRecord]
         container = dicts.resolve(body, self.field, {})
+        if not isinstance(container, Mapping):
+            return None  # externally corrupted data are treated as no data (see dicts.resolve())
         return container.get(key, None)
 
     def store(
